@@ -955,11 +955,15 @@ impl HelperAttributeForCompareOp {
             parse_single::<TemplateOf<ArgsForCompareOp>>(attrs, op.to_str_snake_case())?
         {
             let args = args.0;
+            let key = match &args.key {
+                Some(x) => Some(Template::new_checked(&x.value)?),
+                None => None,
+            };
             Ok(Self {
                 ignore: args.ignore,
                 reverse: args.reverse,
                 by: args.by.map(|x| x.value),
-                key: args.key.map(|x| Template::new(x.value)),
+                key,
                 bounds: Bounds::from(&args.bound),
             })
         } else {
@@ -1073,6 +1077,17 @@ struct Template(TokenStream);
 impl Template {
     fn new(input: impl ToTokens) -> Self {
         Self(input.to_token_stream())
+    }
+    fn new_checked(input: &Expr) -> Result<Self> {
+        let this = Self::new(input);
+        // `$` is replaced by a parenthesized expression, so it must stand where one can stand.
+        if let Err(e) = parse2::<Expr>(this.apply(quote!((this.0)))) {
+            bail!(
+                input.span(),
+                "`$` can be used only as an expression in `key = ...` ({e})"
+            );
+        }
+        Ok(this)
     }
     fn apply(&self, value: TokenStream) -> TokenStream {
         replace_tokens(
